@@ -319,7 +319,7 @@ func VerifC32_sequence() {
 	if eh {
 		f1flags = 0x4
 	}
-	t2 := byte(vrt.Range("type2", 0, 9))
+	t2 := byte(vrt.Range("type2", 0, 11)) // 10, 11: unknown (extension) frame types
 	s2 := byte(vrt.Range("sid2", 0, 2))
 	f2flags := vrt.Byte("flags2") & 0x4
 	p2 := []byte{0xaa, 0xbb, 0xcc, 0xdd, 0xee}
